@@ -779,6 +779,7 @@ where
     if spec.min < tlo || spec.min > thi || spec.max < tlo || spec.max > thi {
         return ("bad-op".into(), vec![]);
     }
+    set_case(&leaky_line_text(spec, &[], &[]));
     let to_s = |v: i128| -> S { <S as num_traits::NumCast>::from(v).unwrap() };
     let quantizer = match guarded(|| LeakyQuantizer::<f64, S, Pr, P>::new(to_s(spec.min)..=to_s(spec.max))) {
         Ok(q) => q,
@@ -1691,6 +1692,11 @@ pub fn gen(rng: &mut Rng, tier: &str, out: &mut Vec<String>) {
     };
     let d1 = LeakySpec { sym: "i32", b: 32, p: 24, min: -5, max: 5, base: Base::Gauss(0.0, 1.0), hint: HintMode::True };
     out.extend(fixed(d1, vec![LOp::Full, LOp::Table, LOp::Enc(-4), LOp::Enc(-5), LOp::Enc(5), LOp::Enc(6), LOp::Dec(58), LOp::Dec(57)]));
+    // signed narrow symbol type × support wider than Symbol::MAX: iterated table vs direct queries
+    for spec in wide_signed_specs(rng).into_iter().filter(|s| s.sym == "i8") {
+        let (min, max) = (spec.min, spec.max);
+        out.extend(fixed(spec, vec![LOp::Full, LOp::Table, LOp::Enc(min), LOp::Enc(max), LOp::Enc(0)]));
+    }
     // D16: signed symbols, hint off by more than half the symbol range
     let d16a = LeakySpec { sym: "i8", b: 16, p: 12, min: -100, max: 100, base: Base::Gauss(0.0, 60.0), hint: HintMode::ConstF(100.0) };
     out.extend(fixed(d16a, vec![LOp::Full, LOp::Dec(828), LOp::Sweep(0, 4095, 1)]));
@@ -1745,6 +1751,34 @@ pub fn gen(rng: &mut Rng, tier: &str, out: &mut Vec<String>) {
                         let tblv = to_bits_list(&v, is32);
                         let w = guarded(|| dispatch_perfect_weights(f, *b, *p, &tblv)).ok().flatten().flatten().unwrap_or_default();
                         out.push(format!("quant.perfect {} {:x} {:x} {} {}", f, b, p, show_list(tblv), show_list(w)));
+                    }
+                }
+            }
+        }
+    }
+    // directed length classes around 2^B (B = Probability::BITS): the length must be compared
+    // before it is narrowed to `Probability`; all zeros with one spike (first / index 2^B-1 / last)
+    for is32 in [true, false] {
+        let f = if is32 { "f32" } else { "f64" };
+        let one = if is32 { 0x3f80_0000u128 } else { 0x3ff0_0000_0000_0000u128 };
+        let mut idx = 0usize;
+        for (b, ps, bps) in [(8u32, &[1u32, 2, 3, 8][..], true), (16, &[16u32][..], false)] {
+            let full = 1usize << b;
+            for len in [full - 1, full, full + 1, full + 2, 2 * full + 1] {
+                for spike in [0, full - 1, len - 1] {
+                    if spike >= len || (!bps && !(len == full + 1 && spike == full - 1 && is32)) {
+                        continue;
+                    }
+                    let mut tbl = vec![0u128; len];
+                    tbl[spike] = one;
+                    let tl = show_list(tbl);
+                    for p in ps {
+                        let ctor = ["cont", "ncenc", "ncdec", "lkc", "lknc"][idx % 5];
+                        idx += 1;
+                        let lookup_ok = LOOKUP_BP.iter().any(|(bb, pp)| *bb == b && pp.contains(p));
+                        let ctor = if !lookup_ok && ctor.starts_with("lk") { "cont" } else { ctor };
+                        out.push(format!("quant.fast {} {} {:x} {:x} - {}", ctor, f, b, p, tl));
+                        out.push(format!("quant.lazy {} {:x} {:x} - {} | enc {:x} | enc {:x} | dec 0", f, b, p, tl, full - 1, len - 1));
                     }
                 }
             }
@@ -1888,6 +1922,13 @@ fn views_check(
     rng: &mut Rng,
 ) -> Result<(Vec<Triple>, u64), String> {
     let mut evals = 0u64;
+    // a model that exposes `symbol_table()` is validated through it first: the direct queries of
+    // some representations use `into_nonzero_unchecked` / unchecked indexing
+    if let Some(t) = &table {
+        if t.len() != n || !table_valid(p, t) {
+            return Err(format!("its symbol table is not a tiling of [0, 2^P) by {} non-empty proper bins: {}", n, show_triples(&t[..t.len().min(8)])));
+        }
+    }
     let enc_table: Option<Vec<Triple>> = match enc {
         None => None,
         Some(e) => {
@@ -1931,6 +1972,15 @@ fn views_check(
     Ok((t, evals))
 }
 
+/// a table as protocol text; very long tables (directed length classes) are described instead
+fn show_tbl(tbl: &[u128]) -> String {
+    if tbl.len() <= 4096 {
+        return show_list(tbl.to_vec());
+    }
+    let nz: Vec<String> = tbl.iter().enumerate().filter(|(_, &b)| b != 0).take(5).map(|(i, b)| format!("{:x} at index {}", b, i)).collect();
+    format!("<{} entries: 0 except {}>", tbl.len(), nz.join(", "))
+}
+
 /// outcome of one constructor kind on one input
 enum Outcome {
     Rejected,
@@ -1951,6 +2001,8 @@ fn report_ctor(
     match r {
         Err(class) => {
             rep.fail("C19", format!("{} => constructor or accepted model of `{}` panicked ({})", line, ctor, class));
+            rep.fail("C03", format!("{} => constructor or accepted model of `{}` panicked ({})", line, ctor, class));
+            rep.fail("C20", format!("{} => constructor or accepted model of `{}` panicked ({})", line, ctor, class));
             if has_decoder {
                 rep.fail("C10", format!("{} => constructor or decoder of `{}` panicked ({})", line, ctor, class));
             }
@@ -1971,10 +2023,12 @@ fn report_ctor(
         Ok(Err(what)) => {
             rep.count(&format!("ctor.{}.accepted", ctor));
             rep.fail("C19", format!("{} => accepted by `{}` but {}", line, ctor, what));
-            rep.fail("C03", format!("{} => `{}`: {}", line, ctor, what));
+            rep.fail("C03", format!("{} => accepted by `{}` but {}", line, ctor, what));
+            // an accepted-but-broken model reaches an unsafe precondition on its next query (zero
+            // probability in a `NonZero`, unchecked index into a short table)
+            rep.fail("C20", format!("{} => accepted by `{}` but {}", line, ctor, what));
             if has_decoder && (what.contains("decoder") || what.contains("lookup table") || what.contains("quantile")) {
                 rep.fail("C10", format!("{} => accepted by `{}` but {}", line, ctor, what));
-                rep.fail("C20", format!("{} => accepted by `{}` but {}", line, ctor, what));
             }
             None
         }
@@ -1993,14 +2047,15 @@ where
     let normf = norm.map(F::from_bits_u);
     let n = probs.len();
     let p = P as u32;
-    let line = |ctor: &str| format!("quant.fast {} {} {:x} {:x} {} {}", ctor, F::NAME, Pr::BITS, P, norm_tok, show_list(tbl.to_vec()));
-    let lazy_line = format!("quant.lazy {} {:x} {:x} {} {} | table | sweep 0 {:x} {:x}", F::NAME, Pr::BITS, P, norm_tok, show_list(tbl.to_vec()), pow2(p) - 1, (pow2(p) / 4096).max(1));
+    let line = |ctor: &str| format!("quant.fast {} {} {:x} {:x} {} {}", ctor, F::NAME, Pr::BITS, P, norm_tok, show_tbl(tbl));
+    let lazy_line = format!("quant.lazy {} {:x} {:x} {} {} | table | sweep 0 {:x} {:x}", F::NAME, Pr::BITS, P, norm_tok, show_tbl(tbl), pow2(p) - 1, (pow2(p) / 4096).max(1));
     rep.count(&format!("fast.{}.B{}.P{}", F::NAME, Pr::BITS, P));
     let tr = |x: (usize, Pr, Pr::NonZero)| -> Triple { (x.0 as u128, to_u128(x.1), to_u128(x.2.get())) };
     let cp = |x: Option<(Pr, Pr::NonZero)>| -> Option<(u128, u128)> { x.map(|(c, p)| (to_u128(c), to_u128(p.get()))) };
 
     // eager contiguous
     let mut r1 = rng.fork();
+    set_case(&line("cont"));
     let eager = report_ctor(rep, &line("cont"), "cont", must_reject, guarded(|| {
         match ContiguousCategoricalEntropyModel::<Pr, Vec<Pr>, P>::from_floating_point_probabilities_fast(&probs, normf) {
             Err(()) => Ok(None),
@@ -2020,6 +2075,7 @@ where
     }));
     // lazy
     let mut r2 = rng.fork();
+    set_case(&lazy_line);
     let lazy = report_ctor(rep, &lazy_line, "lazy", must_reject, guarded(|| {
         match LazyContiguousCategoricalEntropyModel::<Pr, F, _, P>::from_floating_point_probabilities_fast(&probs[..], normf) {
             Err(()) => Ok(None),
@@ -2038,6 +2094,7 @@ where
     }));
     // non-contiguous encoder
     let mut r3 = rng.fork();
+    set_case(&line("ncenc"));
     let ncenc = report_ctor(rep, &line("ncenc"), "ncenc", must_reject, guarded(|| {
         match NonContiguousCategoricalEncoderModel::<usize, Pr, P>::from_symbols_and_floating_point_probabilities_fast(0..n, &probs, normf) {
             Err(()) => Ok(None),
@@ -2053,6 +2110,7 @@ where
     }));
     // non-contiguous decoder
     let mut r4 = rng.fork();
+    set_case(&line("ncdec"));
     let ncdec = report_ctor(rep, &line("ncdec"), "ncdec", must_reject, guarded(|| {
         match NonContiguousCategoricalDecoderModel::<usize, Pr, Vec<(Pr, usize)>, P>::from_symbols_and_floating_point_probabilities_fast(0..n, &probs, normf) {
             Err(()) => Ok(None),
@@ -2152,6 +2210,7 @@ where
     let line = |ctor: &str| format!("quant.fast {} {} {:x} {:x} - {}", ctor, F::NAME, Pr::BITS, P, show_list(tbl.clone()));
     let probs: Vec<F> = tbl.iter().map(|&b| F::from_bits_u(b)).collect();
     let p = P as u32;
+    set_case(&line("lkc"));
     let tr = |x: (usize, Pr, Pr::NonZero)| -> Triple { (x.0 as u128, to_u128(x.1), to_u128(x.2.get())) };
     // Err = (constructor kind of the failing line, what)
     let res = guarded(|| -> Result<u64, (&'static str, String)> {
@@ -2268,6 +2327,7 @@ where
         let line = |ctor: &str| format!("quant.fast {} {} {:x} {:x} {} {}", ctor, F::NAME, Pr::BITS, P, tok, show_list(tbl.clone()));
         let tr = |x: (usize, Pr, Pr::NonZero)| -> Triple { (x.0 as u128, to_u128(x.1), to_u128(x.2.get())) };
         let mut r1 = rng.fork();
+        set_case(&line("lkc"));
         report_ctor(rep, &line("lkc"), "lkc", must, guarded(|| {
             match ContiguousLookupDecoderModel::<Pr, Vec<Pr>, Box<[Pr]>, P>::from_floating_point_probabilities_fast(&probs, normf) {
                 Err(()) => Ok(None),
@@ -2280,6 +2340,7 @@ where
             }
         }));
         let mut r2 = rng.fork();
+        set_case(&line("lknc"));
         report_ctor(rep, &line("lknc"), "lknc", must, guarded(|| {
             match NonContiguousLookupDecoderModel::<usize, Pr, Vec<(Pr, usize)>, Box<[Pr]>, P>::from_symbols_and_floating_point_probabilities_fast(0..n, &probs, normf) {
                 Err(()) => Ok(None),
@@ -2297,6 +2358,7 @@ where
             // (`…_perfect` sums in `f64`, so `f32` entries cannot overflow the sum)
             let must = if is32 && class == "sum-overflows" { None } else { must };
             let mut r3 = rng.fork();
+            set_case(&pline);
             report_ctor(rep, &pline, "lkc.perfect", must, guarded(|| {
                 match ContiguousLookupDecoderModel::<Pr, Vec<Pr>, Box<[Pr]>, P>::from_floating_point_probabilities_perfect(&probs) {
                     Err(()) => Ok(None),
@@ -2309,6 +2371,7 @@ where
                 }
             }));
             let mut r4 = rng.fork();
+            set_case(&pline);
             report_ctor(rep, &pline, "lknc.perfect", must, guarded(|| {
                 match NonContiguousLookupDecoderModel::<usize, Pr, Vec<(Pr, usize)>, Box<[Pr]>, P>::from_symbols_and_floating_point_probabilities_perfect(0..n, &probs) {
                     Err(()) => Ok(None),
@@ -2347,6 +2410,7 @@ where
         let tr = |x: (usize, Pr, Pr::NonZero)| -> Triple { (x.0 as u128, to_u128(x.1), to_u128(x.2.get())) };
         let cp = |x: Option<(Pr, Pr::NonZero)>| -> Option<(u128, u128)> { x.map(|(c, p)| (to_u128(c), to_u128(p.get()))) };
         let mut r1 = rng.fork();
+        set_case(&pline);
         report_ctor(rep, &pline, "cont.perfect", must, guarded(|| {
             match ContiguousCategoricalEntropyModel::<Pr, Vec<Pr>, P>::from_floating_point_probabilities_perfect(&probs) {
                 Err(()) => Ok(None),
@@ -2359,6 +2423,7 @@ where
             }
         }));
         let mut r2 = rng.fork();
+        set_case(&pline);
         report_ctor(rep, &pline, "ncenc.perfect", must, guarded(|| {
             match NonContiguousCategoricalEncoderModel::<usize, Pr, P>::from_symbols_and_floating_point_probabilities_perfect(0..n, &probs) {
                 Err(()) => Ok(None),
@@ -2369,6 +2434,7 @@ where
             }
         }));
         let mut r3 = rng.fork();
+        set_case(&pline);
         report_ctor(rep, &pline, "ncdec.perfect", must, guarded(|| {
             match NonContiguousCategoricalDecoderModel::<usize, Pr, Vec<(Pr, usize)>, P>::from_symbols_and_floating_point_probabilities_perfect(0..n, &probs) {
                 Err(()) => Ok(None),
@@ -2383,6 +2449,205 @@ where
     None
 }
 
+/// **C09 through the coders**: for every symbol of `bad` the model answers `None`, and an ANS
+/// coder and a range encoder (both non-empty) answer `ImpossibleSymbol` and are left exactly as
+/// they were (compared through their derived `Debug`); a panic is a failure, too.
+/// `line(symbol)` = the protocol line that replays the query.
+fn c09_through_coders<M, const P: usize>(model: &M, valid: &[M::Symbol], bad: &[M::Symbol], line: &dyn Fn(&M::Symbol) -> String, rep: &mut Report)
+where
+    M: EncoderModel<P>,
+    M::Probability: Into<u32>,
+    u32: AsPrimitive<M::Probability>,
+    M::Symbol: Copy + Debug,
+{
+    use constriction::stream::{queue::RangeEncoder, stack::AnsCoder, Encode};
+    use constriction::{CoderError, DefaultEncoderFrontendError};
+    let mut ans = AnsCoder::<u32, u64>::new();
+    let mut range = RangeEncoder::<u32, u64>::new();
+    for s in valid {
+        if guarded(|| (ans.encode_symbol(*s, model).is_ok(), range.encode_symbol(*s, model).is_ok())) != Ok((true, true)) {
+            rep.fail("C09", format!("{} => a symbol of the support cannot be encoded", line(s)));
+            return;
+        }
+    }
+    for s in bad {
+        let l = line(s);
+        set_case(&l);
+        rep.eval("C09");
+        rep.eval("C20");
+        let r = guarded(|| -> Result<(), String> {
+            if model.left_cumulative_and_probability(*s).is_some() {
+                return Err("left_cumulative_and_probability returned Some(..) for a symbol outside the support".into());
+            }
+            let before = (format!("{:?}", ans), format!("{:?}", range));
+            let ra = ans.encode_symbol(*s, model);
+            let rr = range.encode_symbol(*s, model);
+            if !matches!(ra, Err(CoderError::Frontend(DefaultEncoderFrontendError::ImpossibleSymbol))) {
+                return Err(format!("AnsCoder::encode_symbol returned {:?} instead of ImpossibleSymbol", ra));
+            }
+            if !matches!(rr, Err(CoderError::Frontend(DefaultEncoderFrontendError::ImpossibleSymbol))) {
+                return Err(format!("RangeEncoder::encode_symbol returned {:?} instead of ImpossibleSymbol", rr));
+            }
+            if before != (format!("{:?}", ans), format!("{:?}", range)) {
+                return Err("the failed encode changed the coder state".into());
+            }
+            Ok(())
+        });
+        match r {
+            Ok(Ok(())) => {}
+            Ok(Err(what)) => {
+                rep.fail("C09", format!("{} => {}", l, what));
+                return;
+            }
+            Err(class) => {
+                rep.fail("C09", format!("{} => encoding an out-of-support symbol panicked ({})", l, class));
+                rep.fail("C20", format!("{} => encoding an out-of-support symbol panicked ({})", l, class));
+                return;
+            }
+        }
+    }
+}
+
+/// out-of-support symbols for a model over `0..n`: one past the end, beyond, and values that
+/// alias an in-support symbol after narrowing to 8 / 16 / 32 / `B` bits
+fn bad_symbols(n: usize, b: u32) -> Vec<usize> {
+    let mut v = vec![n, n + 1, 2 * n, n + 2, usize::MAX, usize::MAX - 1];
+    for k in [8u32, 16, 32, b] {
+        if k < 64 {
+            v.push((1usize << k) + n - 1);
+            v.push((1usize << k) + n);
+            v.push(1usize << k);
+        }
+    }
+    v.retain(|&s| s >= n);
+    v.sort();
+    v.dedup();
+    v
+}
+
+/// C09 for the categorical models built from floats (lazy, eager, non-contiguous encoder)
+fn oracle_c09_one<F, Pr, const P: usize>(rng: &mut Rng, rep: &mut Report) -> Option<Vec<u128>>
+where
+    F: Fl + AsPrimitive<Pr>,
+    Pr: BitArray + AsPrimitive<usize> + AsPrimitive<F> + Into<u32>,
+    usize: AsPrimitive<Pr> + AsPrimitive<F>,
+    u32: AsPrimitive<Pr>,
+{
+    let is32 = F::NAME == "f32";
+    let n = (2 + rng.next() % 40) as usize;
+    let n = n.min((pow2(P as u32) as usize).saturating_sub(2)).max(2);
+    let v = gen_weights(rng, n, is32);
+    let v: Vec<f64> = v.iter().map(|x| if x.is_finite() && *x >= 0.0 { *x } else { 0.0 }).collect();
+    let tbl = to_bits_list(&v, is32);
+    let probs: Vec<F> = tbl.iter().map(|&b| F::from_bits_u(b)).collect();
+    let tl = show_list(tbl.clone());
+    let valid: Vec<usize> = vec![0, n - 1, n / 2];
+    let bad = bad_symbols(n, Pr::BITS as u32);
+    rep.count(&format!("any.c09.coders.{}.B{}.P{}", F::NAME, Pr::BITS, P));
+    if let Ok(m) = LazyContiguousCategoricalEntropyModel::<Pr, F, _, P>::from_floating_point_probabilities_fast(&probs[..], None) {
+        let line = |s: &usize| format!("quant.lazy {} {:x} {:x} - {} | enc {:x}", F::NAME, Pr::BITS, P, tl, s);
+        c09_through_coders::<_, P>(&m, &valid, &bad, &line, rep);
+    }
+    if let Ok(m) = ContiguousCategoricalEntropyModel::<Pr, Vec<Pr>, P>::from_floating_point_probabilities_fast(&probs, None) {
+        let line = |s: &usize| format!("quant.fast cont {} {:x} {:x} - {} # left_cumulative_and_probability({:x})", F::NAME, Pr::BITS, P, tl, s);
+        c09_through_coders::<_, P>(&m, &valid, &bad, &line, rep);
+    }
+    if let Ok(m) = NonContiguousCategoricalEncoderModel::<usize, Pr, P>::from_symbols_and_floating_point_probabilities_fast(0..n, &probs, None) {
+        let line = |s: &usize| format!("quant.fast ncenc {} {:x} {:x} - {} # left_cumulative_and_probability({:x})", F::NAME, Pr::BITS, P, tl, s);
+        c09_through_coders::<_, P>(&m, &valid, &bad, &line, rep);
+    }
+    None
+}
+perfect_combos!(dispatch_oracle_c09, oracle_c09_one, (rng: &mut Rng, rep: &mut Report) (rng, rep) -> Option<Vec<u128>>);
+
+/// directed *length* classes around `2^B` (`B = Probability::BITS ∈ {8, 16}`): a table whose
+/// length wraps to a small value when narrowed to `Probability` must still be rejected; all-zero
+/// weights with one spike at the first / last-in-range (`2^B - 1`) / last position
+fn oracle_directed_lengths<F, Pr, const P: usize>(rng: &mut Rng, rep: &mut Report)
+where
+    F: Fl + AsPrimitive<Pr>,
+    Pr: BitArray + AsPrimitive<usize> + AsPrimitive<F>,
+    usize: AsPrimitive<Pr> + AsPrimitive<F>,
+{
+    if Pr::BITS > 16 {
+        return;
+    }
+    let is32 = F::NAME == "f32";
+    let full = 1usize << Pr::BITS;
+    for len in [full - 1, full, full + 1, full + 2, 2 * full + 1] {
+        for spike in [0, full - 1, len - 1] {
+            if spike >= len {
+                continue;
+            }
+            let mut v = vec![0.0f64; len];
+            v[spike] = 1.0;
+            let tbl = to_bits_list(&v, is32);
+            rep.count(&format!("any.lengths.B{}.P{}", Pr::BITS, if P == Pr::BITS { "==BITS" } else { "<BITS" }));
+            // more than `2^P` symbols cannot all get a nonzero probability: documented error
+            let must = if len > (1usize << P) { Some("more-than-2^P-entries") } else { None };
+            check_fast_ctors::<F, Pr, P>(&tbl, None, "-", must, rng, rep);
+        }
+    }
+}
+fp_combos!(dispatch_oracle_directed_lengths, oracle_directed_lengths, (rng: &mut Rng, rep: &mut Report) (rng, rep) -> ());
+
+/// the same length classes for the lookup constructors
+fn oracle_directed_lengths_lookup<F, Pr, const P: usize>(rng: &mut Rng, rep: &mut Report)
+where
+    F: Fl + AsPrimitive<Pr>,
+    Pr: BitArray + AsPrimitive<usize> + Into<usize> + Into<f64>,
+    usize: AsPrimitive<Pr> + AsPrimitive<F>,
+    f64: AsPrimitive<Pr>,
+{
+    let is32 = F::NAME == "f32";
+    let p = P as u32;
+    let full = 1usize << Pr::BITS;
+    let _ = rng;
+    for len in [full - 1, full, full + 1, full + 2, 2 * full + 1] {
+        for spike in [0, full - 1, len - 1] {
+            if spike >= len {
+                continue;
+            }
+            let mut v = vec![0.0f64; len];
+            v[spike] = 1.0;
+            let tbl = to_bits_list(&v, is32);
+            let probs: Vec<F> = tbl.iter().map(|&b| F::from_bits_u(b)).collect();
+            let n = len;
+            let must = if len > (1usize << P) { Some("more-than-2^P-entries") } else { None };
+            // (the table is all zeros except for one `1.0` at index `spike`)
+            let line = |ctor: &str| format!("quant.fast {} {} {:x} {:x} - <{} entries: 0.0 except 1.0 at index {}>", ctor, F::NAME, Pr::BITS, P, len, spike);
+            let tr = |x: (usize, Pr, Pr::NonZero)| -> Triple { (x.0 as u128, to_u128(x.1), to_u128(x.2.get())) };
+            let mut r1 = Rng(len as u64 ^ 0x51);
+            set_case(&line("lkc"));
+            report_ctor(rep, &line("lkc"), "lkc", must, guarded(|| {
+                match ContiguousLookupDecoderModel::<Pr, Vec<Pr>, Box<[Pr]>, P>::from_floating_point_probabilities_fast(&probs, None) {
+                    Err(()) => Ok(None),
+                    Ok(m) => {
+                        let table: Vec<Triple> = m.symbol_table().map(tr).collect();
+                        lookup_table_check(&m, p, &table)?;
+                        let dec = |q: u128| tr(m.quantile_function(from_u128(q)));
+                        Ok(Some(views_check(p, n, None, Some(table), Some(&dec), &mut r1)?))
+                    }
+                }
+            }));
+            let mut r2 = Rng(len as u64 ^ 0x52);
+            set_case(&line("lknc"));
+            report_ctor(rep, &line("lknc"), "lknc", must, guarded(|| {
+                match NonContiguousLookupDecoderModel::<usize, Pr, Vec<(Pr, usize)>, Box<[Pr]>, P>::from_symbols_and_floating_point_probabilities_fast(0..n, &probs, None) {
+                    Err(()) => Ok(None),
+                    Ok(m) => {
+                        let table: Vec<Triple> = m.symbol_table().map(tr).collect();
+                        lookup_table_check(&m, p, &table)?;
+                        let dec = |q: u128| tr(m.quantile_function(from_u128(q)));
+                        Ok(Some(views_check(p, n, None, Some(table), Some(&dec), &mut r2)?))
+                    }
+                }
+            }));
+        }
+    }
+}
+lookup_combos!(dispatch_oracle_directed_lengths_lookup, oracle_directed_lengths_lookup, (rng: &mut Rng, rep: &mut Report) (rng, rep) -> ());
+
 fp_combos!(dispatch_oracle_directed_fast, oracle_directed_fast, (rng: &mut Rng, rep: &mut Report) (rng, rep) -> ());
 lookup_combos!(dispatch_oracle_directed_lookup, oracle_directed_lookup, (rng: &mut Rng, rep: &mut Report) (rng, rep) -> ());
 perfect_combos!(dispatch_oracle_directed_perfect, oracle_directed_perfect, (rng: &mut Rng, rep: &mut Report) (rng, rep) -> Option<Vec<u128>>);
@@ -2394,11 +2659,13 @@ perfect_combos!(dispatch_oracle_perfect, oracle_perfect_one, (rng: &mut Rng, rep
 fn oracle_leaky_generic<S, Pr, const P: usize>(spec: &LeakySpec, rng: &mut Rng, rep: &mut Report) -> Option<()>
 where
     S: PrimInt + AsPrimitive<Pr> + AsPrimitive<usize> + Into<f64> + WrappingSub + WrappingAdd + Debug + std::hash::Hash + Default + 'static,
-    Pr: BitArray + Into<f64>,
+    Pr: BitArray + Into<f64> + Into<u32>,
+    u32: AsPrimitive<Pr>,
     f64: AsPrimitive<Pr> + AsPrimitive<S>,
     usize: AsPrimitive<S>,
 {
     let replay = leaky_line_text(spec, &[], &[]);
+    set_case(&replay);
     let built = spec.base.build();
     let rec: RecCdf = RefCell::new(Vec::new());
     let inv: RecInv = RefCell::new(Vec::new());
@@ -2494,6 +2761,22 @@ where
                     fails.push(("C09", format!("out-of-support symbol {} has nonzero probability", s)));
                 }
             }
+        }
+        // C09 through the coders: ImpossibleSymbol, coder untouched
+        {
+            let bad: Vec<S> = [spec.min - 1, spec.max + 1, tlo, thi, spec.min - 2, spec.max + 2, spec.max + 256, spec.min - 256, spec.max + 65536]
+                .iter()
+                .filter(|&&s| s >= tlo && s <= thi && (s < spec.min || s > spec.max))
+                .map(|&s| to_s(s))
+                .collect();
+            let valid: Vec<S> = vec![to_s(spec.min), to_s(spec.max)];
+            let line = |s: &S| format!("{} | enc {} -", replay, sym_hex(spec.sym, s.to_i128().unwrap()));
+            let mut local = Report::default();
+            c09_through_coders::<_, P>(&model_f, &valid, &bad, &line, &mut local);
+            for (prop, what) in local.fails {
+                fails.push((if prop == "C09" { "C09raw" } else { "C20raw" }, what));
+            }
+            fails.push(("c09evals", format!("{}", bad.len())));
         }
         // C05: iterated symbol table == direct queries; generic conversions.  Each runs under
         // its own guard: a panic of the iterator (or of a conversion built on it) while every
@@ -2616,7 +2899,11 @@ where
         }
         Ok(fails) => {
             for (prop, what) in fails {
-                if prop == "evals" {
+                if prop == "c09evals" {
+                    *rep.evals.entry("C09".into()).or_insert(0) += what.parse::<u64>().unwrap();
+                } else if prop == "C09raw" || prop == "C20raw" {
+                    rep.fail(&prop[..3], what);
+                } else if prop == "evals" {
                     let v: Vec<u64> = what.split(' ').map(|x| x.parse().unwrap()).collect();
                     for _ in 0..v[0] {
                         rep.eval("C09");
@@ -2655,6 +2942,37 @@ leaky_oracle_dispatch!(
     [(u8, "u8"), (i8, "i8"), (u16, "u16"), (i16, "i16"), (u32, "u32"), (i32, "i32")],
     [(u8, 1), (u8, 4), (u8, 8), (u16, 8), (u16, 12), (u16, 16), (u32, 12), (u32, 24), (u32, 32)]
 );
+
+/// directed cells: signed symbol type × support wider than `Symbol::MAX` (so that `symbol - min`
+/// does not fit the symbol type and only the wrapping `slack()` is correct) × every (B, P)
+pub fn wide_signed_specs(rng: &mut Rng) -> Vec<LeakySpec> {
+    let mut out = Vec::new();
+    let unit = |r: &mut Rng| (r.next() >> 11) as f64 / (1u64 << 53) as f64;
+    let cells: &[(&'static str, &[(i128, i128)])] = &[
+        ("i8", &[(-100, 100), (-128, 127), (-128, 126), (-127, 127), (-1, 127)]),
+        ("i16", &[(-20000, 20000), (-32768, 32767), (-32768, 1), (-100, 32767)]),
+    ];
+    for (sym, supports) in cells {
+        for &(min, max) in supports.iter() {
+            for (b, ps) in LEAKY_BP {
+                for &p in ps.iter() {
+                    if ((max - min) as u128) + 1 > pow2(p) {
+                        continue;
+                    }
+                    let loc = min as f64 + unit(rng) * (max - min) as f64;
+                    let scale = (max - min) as f64 * (0.02 + 0.5 * unit(rng));
+                    let base = match rng.next() % 3 {
+                        0 => Base::Gauss(loc, scale),
+                        1 => Base::Cauchy(loc, scale),
+                        _ => Base::Laplace(loc, scale),
+                    };
+                    out.push(LeakySpec { sym, b: *b, p, min, max, base, hint: HintMode::True });
+                }
+            }
+        }
+    }
+    out
+}
 
 /// C19 / C09 for `LeakyQuantizer::new`: accepted iff 2 <= size <= 2^P, for every symbol type
 fn oracle_new(rng: &mut Rng, rep: &mut Report) {
@@ -3016,6 +3334,28 @@ pub fn oracle(rng: &mut Rng, tier: &str, rep: &mut Report) {
             }
         }
     }
+    // directed length classes around 2^B and C09 through the coders: every cell, every run
+    for f in fnames {
+        for (b, ps) in FP_BP {
+            for p in ps.iter() {
+                dispatch_oracle_directed_lengths(f, *b, *p, rng, rep);
+            }
+        }
+        for (b, ps) in LOOKUP_BP {
+            for p in ps.iter() {
+                dispatch_oracle_directed_lengths_lookup(f, *b, *p, rng, rep);
+            }
+        }
+    }
+    for _ in 0..25 * k {
+        for f in fnames {
+            for (b, ps) in PERFECT_BP {
+                for p in ps.iter() {
+                    dispatch_oracle_c09(f, *b, *p, rng, rep);
+                }
+            }
+        }
+    }
     for _ in 0..3000 * k {
         let (b, p) = pick_bp(rng, FP_BP);
         let f = *rng.pick(&fnames);
@@ -3033,6 +3373,11 @@ pub fn oracle(rng: &mut Rng, tier: &str, rep: &mut Report) {
     }
     for _ in 0..2000 * k {
         oracle_new(rng, rep);
+    }
+    for _ in 0..k {
+        for spec in wide_signed_specs(rng) {
+            dispatch_leaky_oracle(&spec, rng, rep);
+        }
     }
     for i in 0..1000 * k {
         // mostly small supports (every quantile × every hint), some huge ones
